@@ -1364,6 +1364,23 @@ impl RawConn {
     }
 
     pub fn connect_with(addr: SocketAddr, opts: ConnOpts) -> RigResult<RawConn> {
+        // EADDRNOTAVAIL / EADDRINUSE on connect = no free ephemeral port right now
+        // (busy machine): retry; every other error (refused, reset, timeout) is
+        // meaningful to the caller and returned at once.
+        let mut last = None;
+        for attempt in 0..60u64 {
+            match Self::connect_once(addr, opts.clone()) {
+                Err(RigError::Io(ref m)) if m.contains("AddrNotAvailable") || m.contains("AddrInUse") => {
+                    last = Some(RigError::Io(m.clone()));
+                    thread::sleep(Duration::from_millis(10 + 5 * attempt));
+                }
+                other => return other,
+            }
+        }
+        Err(last.expect("at least one attempt"))
+    }
+
+    fn connect_once(addr: SocketAddr, opts: ConnOpts) -> RigResult<RawConn> {
         let fd = unsafe {
             libc::socket(
                 libc::AF_INET,
@@ -1660,6 +1677,27 @@ impl MockBackend {
     /// accepted ones (the only way to get a small receive window from the
     /// first segment on).
     pub fn listen_with(opts: ConnOpts) -> RigResult<MockBackend> {
+        // On a busy machine (tens of thousands of loopback sockets in TIME_WAIT,
+        // other rigs holding reservations) bind(0)/listen can transiently fail
+        // with EADDRINUSE: that is the environment, not the code under test.
+        let mut last = None;
+        for attempt in 0..60 {
+            match Self::listen_once(&opts) {
+                Ok(b) => return Ok(b),
+                Err(e) => {
+                    let busy = format!("{e:?}").contains("AddrInUse") || format!("{e:?}").contains("AddrNotAvailable");
+                    last = Some(e);
+                    if !busy {
+                        break;
+                    }
+                    thread::sleep(Duration::from_millis(10 + 5 * attempt));
+                }
+            }
+        }
+        Err(last.expect("at least one attempt"))
+    }
+
+    fn listen_once(opts: &ConnOpts) -> RigResult<MockBackend> {
         let fd = unsafe { libc::socket(libc::AF_INET, libc::SOCK_STREAM | libc::SOCK_CLOEXEC, 0) };
         if fd < 0 {
             return Err(io::Error::last_os_error().into());
